@@ -33,6 +33,14 @@ def gen_fd(rng, fd, files):
             # a sibling without the suffix exists too
             files[path[:-10]] = {"t": "f", "data": "sibling"}
         d["target"] = path
+        if rng.random() < 0.15:
+            d["locks"] = [pick(rng, [
+                "1: FLOCK  ADVISORY  WRITE 359 00:13:11691 0 EOF",
+                "1: POSIX  ADVISORY  READ 359 08:01:52 100 200",
+                "1: OFDLCK ADVISORY  WRITE -1 08:01:52 0 EOF"])]
+            if rng.random() < 0.3:
+                d["locks"].append("2: POSIX  ADVISORY  WRITE 359 08:01:52 "
+                                  "300 400")
     elif kind == "deleted":
         path = "/tmp/del%d" % fd
         d["target"] = path
